@@ -89,7 +89,7 @@ def gen(rng, idx, tier):
     for _ in range(n):
         if RAW_OK and rng.random() < 0.5:
             L = rng.choice([0, 1, 5, 6, 7, 8, 12, 13, 14, 20, 27, 28, 216, 217, 222, 223]) if rng.random() < 0.6 else rng.randrange(0, 224)
-            out.append({"raw": raw_payload(rng, L).hex(), "src": rng.randrange(254), "prio": rng.randrange(8)})
+            out.append({"raw": raw_payload(rng, L).hex(), "src": rng.choice([1, 1, 1, rng.randrange(254)]), "prio": rng.choice([3, 3, rng.randrange(8)])})
         else:
             f = rng.choice(_fast)
             pf = (f["pgn"] >> 8) & 0xFF
@@ -108,13 +108,13 @@ def sweeps(tier, seed):
         for c in range(8):
             for L0 in range(0, 224, 16):
                 plans.append({"format": fmt, "pre": c, "sweep": True,
-                              "msgs": [{"raw": raw_payload(rng, L).hex(), "src": 7, "prio": 3} for L in range(L0, min(224, L0 + 16))],
+                              "msgs": [{"raw": raw_payload(rng, L).hex(), "src": 1, "prio": 3} for L in range(L0, min(224, L0 + 16))],
                               "_seed": c * 1000 + L0, "_idx": -1})
     if tier == "quick":
         for fmt in ("usb", "yd"):
             for L0 in range(0, 224, 16):
                 plans.append({"format": fmt, "pre": 0, "sweep": True,
-                              "msgs": [{"raw": raw_payload(rng, L).hex(), "src": 7, "prio": 3} for L in range(L0, min(224, L0 + 16))],
+                              "msgs": [{"raw": raw_payload(rng, L).hex(), "src": 1, "prio": 3} for L in range(L0, min(224, L0 + 16))],
                               "_seed": L0, "_idx": -1})
     return plans
 
@@ -155,16 +155,20 @@ def execute(plan):
     v = []
     log = []
     # bring the sender's counter to the planned state through the public path
+    # the counter the message before has used is read off its frames, not assumed
+    prev_seq = prev_key = None
     for _ in range(plan.get("pre", 0)):
         if RAW_OK:
             m = NMEA2000Message(PGN=130816, id="simRaw", source=1, destination=255, priority=3)
             m.fields = [NMEA2000Field("raw", value="ff9f01", raw_value=None)]
         else:
             m = NMEA2000Message.from_json(_fast[0]["json"])
-        encode(m)
-    prev_seq = None
-    if plan.get("pre", 0):
-        prev_seq = (plan["pre"] - 1) % 8
+        try:
+            pf_ = _frames_of(fmt, encode(m))
+            prev_seq = pf_[0][1][0] >> 5
+            prev_key = pf_[0][0]
+        except Exception:
+            prev_seq = prev_key = None
     st = {"format_" + fmt: 1, "messages": 0, "frames": 0}
     evno = 0
     for mi, spec in enumerate(plan["msgs"]):
@@ -234,17 +238,25 @@ def execute(plan):
         if ok and len(seqs) != 1:
             v.append(viol("C03.frame.counter", evno, "frames of one message carry sequence counters %s" % sorted(seqs)))
             ok = False
-        if ok and prev_seq is not None and seqs == {prev_seq}:
-            v.append(viol("C03.frame.counter", evno, "sequence counter %d equals the previous fast-packet message's" % prev_seq))
+        # "differs from the previous message's": judged for two messages in a row on the same stream (same
+        # identifier), which is what a receiver needs; a sender that keeps one counter per PGN, as the standard
+        # describes it, satisfies the statement as much as one global counter does
+        if ok and prev_seq is not None and seqs == {prev_seq} and prev_key == idn:
+            v.append(viol("C03.frame.counter", evno, "sequence counter %d equals that of the message sent just before on the same "
+                          "stream (identifier %08X)" % (prev_seq, idn)))
             ok = False
+        if ok and prev_key == idn:
+            st["same_stream_twice_in_a_row"] = st.get("same_stream_twice_in_a_row", 0) + 1
         if ok and joined[:L] != payload:
             v.append(viol("C03.frame.count", evno, "frames carry %s, payload is %s" % (joined[:L].hex(), payload.hex())))
             ok = False
         if ok and len(joined) > L:
-            v.append(viol("C03.frame.count", evno, "frames carry %d bytes beyond the %d-byte payload" % (len(joined) - L, L)))
-            ok = False
+            # filler inside the last frame (the standard pads with FF) is not a frame "for data that does not
+            # exist": the frame count above is exact, so the excess is always shorter than one frame
+            st["padded_last_frames"] = st.get("padded_last_frames", 0) + 1
         if ok:
             prev_seq = next(iter(seqs))
+            prev_key = idn
         if not ok:
             break
         # receiver side
